@@ -2,7 +2,8 @@
 # re-evaluates every kept seeded change (seeded/<ID>-<v>/) against its property's quick check and refreshes meta.json["checks"]
 cd "$(dirname "$0")/.." || exit 2
 bad=0
-for d in seeded/C*-*; do
+for d in ${@:-seeded/C*-*}; do
+  if grep -q '"retired"' $d/meta.json; then echo "$d retired"; continue; fi
   id=$(echo $d | sed 's|seeded/\(C[0-9]*\)-.*|\1|')
   tools/seeded.py $d $id > /tmp/seeded_eval.json 2>&1
   python3 - $d /tmp/seeded_eval.json $id <<'PY' || bad=$((bad+1))
